@@ -188,6 +188,9 @@ UNSUPPORTED = {
     'true division': ['        self.r.prepare(self.b.get() / 2)'],
     'tuple assignment': ['        x, y = self.a.get(), self.b.get()', '        self.r.prepare(x + y)'],
     'two targets': ['        x = y = self.a.get()', '        self.r.prepare(x + y)'],
+    'tuple assignment (swap of two state variables)': ['        self.st, self.cnt = self.cnt, self.st + self.a.get()', '        self.r.prepare(self.cnt)'],
+    'tuple assignment reading an earlier target': ['        x, y = self.a.get(), self.b.get()', '        x, y = y, x + y', '        self.r.prepare(x)', '        self.st = y'],
+    'tuple assignment of independent values': ['        self.st, self.cnt = self.a.get(), self.b.get()', '        self.r.prepare(self.st)'],
     'two targets, the value read back from the first': ['        self.st = self.cnt = self.st + self.a.get()', '        self.r.prepare(self.cnt)'],
     'three targets with a local in the middle': ['        self.cnt = t = self.st = self.cnt + self.b.get() + 1', '        self.r.prepare(t)'],
     'two targets on a port and a state': ['        x = self.st = self.st ^ self.a.get()', '        self.r.prepare(x)', '        self.s.prepare(self.st & 1)'],
